@@ -46,6 +46,7 @@ var fieldType = map[string]string{
 	"bus.signalHandler.signals":             "[]signalUser",
 	"bus.signalHandler.signalsMutex":        "sync.RWMutex",
 	"bus.signalUser.userID":                 "uint64",
+	"bus.signalUser.contextID":              "int",
 	"bus.serviceImpl.objects":               "map[uint32]Actor",
 	"bus.serviceImpl.boxes":                 "map[uint32]MailBox",
 	"bus.Router.services":                   "map[uint32]ServiceReceiver",
